@@ -1,6 +1,6 @@
 """T1/T2 translator for the outputs (C04, C17, C03): flags, modes, format strings, call patterns of src/output/*.c."""
 import os, re
-from .translate import strip_comments, func_body, c_unescape, cpp_value, STR
+from .translate import strip_comments, func_body, c_unescape, cpp_value, STR, resolve_locals, reachable_body
 from .core import coq_bytes
 from .skel import emit_skeletons
 
@@ -47,7 +47,8 @@ def tr_output(run):
     notes = run.notes
     v = {}
     fo = strip_comments(run.src("src/output/fileoutput.c"))
-    fb = func_body(fo, "snoopy_output_fileoutput") or ""
+    # the function together with the file-local static helpers it calls (a statement may live in an extracted helper)
+    fb = reachable_body(fo, "snoopy_output_fileoutput") or ""
     m_fopen = re.search(r"fopen\s*\(\s*filePath\s*,\s*" + STR + r"\s*\)", fb)
     m_open = re.search(r"\bopen\s*\(\s*filePath\s*,\s*([A-Z_|\s]+?)\s*(?:,\s*[0-7]+\s*)?\)", fb)
     nwrite = len(re.findall(r"\bwrite\s*\(", fb))
@@ -100,13 +101,13 @@ def tr_output(run):
             notes.append("translator: %s.c print call not recognised" % f)
     # socket
     so = strip_comments(run.src("src/output/socketoutput.c"))
-    sb = func_body(so, "snoopy_output_socketoutput") or ""
+    sb = resolve_locals(reachable_body(so, "snoopy_output_socketoutput") or "")
     socks = re.findall(r"socket\s*\(\s*AF_LOCAL\s*,\s*([A-Z_|\s]+?)\s*,\s*0\s*\)", sb)
     # the glibc<2.9 branch is not compiled here: take the #else branch (last occurrence)
     sflags = set(x.strip() for x in socks[-1].split("|")) if socks else set()
     v["sock_nonblock"] = "SOCK_NONBLOCK" in sflags and "SOCK_DGRAM" in sflags
     v["sock_cloexec"] = "SOCK_CLOEXEC" in sflags
-    m = re.search(r"send\s*\(\s*s\s*,\s*logMessage\s*,\s*strlen\s*\(\s*logMessage\s*\)\s*,\s*([A-Z_|\s]+?)\s*\)", sb)
+    m = re.search(r"send\s*\(\s*\w+\s*,\s*logMessage\s*,\s*strlen\s*\(\s*logMessage\s*\)\s*,\s*([A-Z_|\s]+?)\s*\)", sb)
     snd = set(x.strip() for x in m.group(1).split("|")) if m else set()
     v["send_dontwait"] = "MSG_DONTWAIT" in snd
     v["send_nosignal"] = "MSG_NOSIGNAL" in snd
